@@ -690,7 +690,14 @@ func wcRandom(rng interface{ Intn(int) int }, i int) *wcScen {
 	alltypes := []string{"L22", "L3", "OFF"}
 	for j := 0; j < n; j++ {
 		var st wcStep
-		switch x := rng.Intn(20); {
+		x := rng.Intn(20)
+		if j > 0 && sc.Steps[j-1].K == "req" && sc.Steps[j-1].Req == "PAUSE" && rng.Intn(3) == 0 {
+			// a rejected UNPAUSE right after a PAUSE, then data: the refusal must leave the channels paused
+			sc.Steps = append(sc.Steps, wcStep{K: "req", Req: []string{"UNPAUSEX", "UNPAUSE ", "UNPAUSE\tlabel"}[rng.Intn(3)]})
+			j++
+			x = 19
+		}
+		switch {
 		case x < 5:
 			st = wcStep{K: "req", Req: "START"}
 			for _, t := range alltypes {
